@@ -28,8 +28,10 @@ def hint_sources(t):
     return out
 
 
-def tainted(t, tparams=()):
-    """does term t carry an unsanitised upper-bound hint (or a tainted parameter)?"""
+def tainted(t, tparams=(), bound=1):
+    """does term t carry an unsanitised size_hint bound (1 = upper, 0 = lower) or a tainted parameter?"""
+    if bound == 0:
+        return tainted_lo(t, tparams)
     if t[0] == "call" and t[1].split("::")[-1] in SANITIZERS:
         if t[1].split("::")[-1] in ("min", "clamp"):
             # min(tainted, untainted) is bounded by the untainted side
@@ -53,7 +55,24 @@ def tainted(t, tparams=()):
     return False
 
 
-def hint_scan(view):
+def tainted_lo(t, tparams=()):
+    """does t carry the LOWER bound of a size_hint numerically (through copies, casts and the crate's own parameters)?"""
+    t = strip(t)
+    if t[0] == "field" and t[2] in (0, "0") and strip(t[1])[0] == "call" and strip(t[1])[1].endswith("::size_hint"):
+        return True
+    if t[0] == "param" and (t[1], t[2]) in tparams:
+        return True
+    if t[0] in ("phi", "mu"):
+        alts = t[4] if t[0] == "phi" else t[1]
+        return any(isinstance(a, tuple) and a and a[0] != "rec" and tainted_lo(a, tparams) for a in alts)
+    if t[0] == "cast":
+        return tainted_lo(t[2], tparams)
+    if t[0] == "field" and strip(t[1])[0] == "binop":
+        return False   # a computed value is judged where it is computed
+    return False
+
+
+def hint_scan(view, bound=1):
     """-> (number of source sites, [(fn key, tainted-params?, [violations])])"""
     prog = view.prog
     vp = view.vp
@@ -78,10 +97,10 @@ def hint_scan(view):
         for bb, t in f.calls():
             ci = fx.call_info(f, bb)
             args = fx.args_vp(ci)
-            targs = [i for i, a in enumerate(args) if tainted(a, tp)]
+            targs = [i for i, a in enumerate(args) if tainted(a, tp, bound)]
             if not targs:
                 continue
-            if ci.name in ALLOC_SINKS:
+            if ci.name in ALLOC_SINKS and bound == 1:
                 bad.append("upper bound of size_hint reaches the allocation request %s (arg %d) at line %d" % (ci.key, targs[0], t["span"]["line"]))
             elif ci.local_callee:
                 callee = prog.fn(ci.local_callee)
@@ -93,8 +112,16 @@ def hint_scan(view):
             for s in b["stmts"]:
                 if s["k"] == "assign" and s["rv"]["k"] == "binop" and s["rv"]["op"].endswith("WithOverflow"):
                     v = vp.rvalue(f, s["rv"])
-                    if tainted(v[2], tp) or tainted(v[3], tp):
+                    if bound == 1 and (tainted(v[2], tp) or tainted(v[3], tp)):
                         bad.append("upper bound of size_hint enters overflow-checked arithmetic (%s) at line %d" % (s["rv"]["op"], s["span"]["line"]))
+                    if bound == 0 and s["rv"]["op"].startswith("Sub") and (tainted_lo(v[2], tp) or tainted_lo(v[3], tp)):
+                        # every lower bound from 0 up to what is really yielded is legal: a subtraction with it on either side
+                        # can underflow for some legal hint unless it is `saturating_sub` / guarded (checked arithmetic panics)
+                        bad.append("lower bound of size_hint enters a panicking subtraction (%s) at line %d" % (s["rv"]["op"], s["span"]["line"]))
+                if s["k"] == "assign" and s["rv"]["k"] == "binop" and s["rv"]["op"] in ("Div", "Rem") and bound == 0:
+                    v = vp.rvalue(f, s["rv"])
+                    if tainted_lo(v[3], tp):
+                        bad.append("division by the lower bound of size_hint (0 is a legal lower bound) at line %d" % s["span"]["line"])
         out.append((key, bool(tp), bad))
     return nsrc, out
 
@@ -107,6 +134,11 @@ def r_hint(ctx, view):
         f = view.prog.fn(key)
         ctx.ob("R-HINT", "%s%s" % (short(key), ":tainted-params" if tp else ""), not bad, f.loc(),
                "; ".join(bad) if bad else "the upper bound of size_hint reaches no allocation request and no checked arithmetic")
+    _, res0 = hint_scan(view, bound=0)
+    for key, tp, bad in res0:
+        f = view.prog.fn(key)
+        ctx.ob("R-HINT", "%s:lower-bound%s" % (short(key), ":tainted-params" if tp else ""), not bad, f.loc(),
+               "; ".join(bad) if bad else "the lower bound of size_hint enters no panicking subtraction or division")
 
 
 # ------------------------------------------------------------------------------------------
@@ -291,6 +323,11 @@ def r_strat(ctx, view):
         if ra == 1 and rb == 2:
             op = {"Gt": "Lt", "Lt": "Gt", "Ge": "Le", "Le": "Ge"}[op]
         swap_blocks = [e["bb"] for e in view.fx.events(f) if e["kind"] == "tw" and e.get("comp") == "*"]
+        if not swap_blocks:
+            # field by field: all four components exchanged with the other store's (the automaton checks all-or-none)
+            fs = [e for e in view.fx.events(f) if e["kind"] in ("tw", "mw") and (e.get("how") == "call:std::mem::swap")]
+            if {e.get("comp") for e in fs} == {"map", "heap", "qp", "size"}:
+                swap_blocks = [e["bb"] for e in fs]
         true_t = t["otherwise"]
         ok = op == "Gt" and bool(swap_blocks) and all(sb == true_t or sb in f.cfg.reachable_from(true_t) for sb in swap_blocks)
         why = "stores are exchanged iff other.size %s self.size" % {"Gt": ">", "Ge": ">=", "Lt": "<", "Le": "<="}[op]
@@ -307,8 +344,10 @@ def r_strat(ctx, view):
             t = f.term(bi)
             if t["k"] == "switch":
                 d = strip(vp.operand(f, t["discr"]))
-                if d[0] == "binop" and d[1] == "Eq" and component(d[2]) and component(d[2])[0] == "size" and param_index(component(d[2])[1]) == 2 and const_int(strip(d[3])) == 0:
-                    stop.add((bi, t["otherwise"]))
+                if d[0] == "binop" and d[1] in ("Eq", "Ne") and component(d[2]) and component(d[2])[0] == "size" and param_index(component(d[2])[1]) == 2 and const_int(strip(d[3])) == 0:
+                    zero_t = [tb for v, tb in t["targets"] if v == 0]
+                    # the edge on which `other.size == 0` holds
+                    stop.add((bi, t["otherwise"]) if d[1] == "Eq" else (bi, zero_t[0] if zero_t else t["otherwise"]))
                 if d[0] == "call" and d[1].split("::")[-1] == "is_empty" and d[2] and param_index(d[2][0]) == 2:
                     stop.add((bi, t["otherwise"]))
         esc = f.cfg.escape_path(0, set(dr), stop_edges=stop)
@@ -1204,6 +1243,9 @@ def r_readers(ctx, view):
         cr = strip(ret_term(view, mappers[0]))
         okc = cr[0] == "field" and cr[2] in (0, "0") and strip(cr[1])[0] in ("cparam", "param")
     ok = "collect" in names and "into_iter" in names and okc and any(c[1].split("::")[-1] == "into_iter" and component(c[2][0]) and component(c[2][0])[0] == "map" for c in _calls_in(r))
+    if not ok:
+        # `self.map.into_keys().collect()`: the items, by indexmap's own projection
+        ok = "collect" in names and not mappers and any(c[1].split("::")[-1] == "into_keys" and c[2] and component(c[2][0]) and component(c[2][0])[0] == "map" for c in _calls_in(r))
     ob("Store::into_vec", ok, f, "collects the items (.0) of map.into_iter()")
     # queue level: whatever the delegation chain, the value returned is the Store-level one on `self.store`
     from .core import deep_ret, subst_params
